@@ -4,9 +4,10 @@
 # (scheduling decisions, datagram bytes, observations, findings) must be identical.
 # usage: ./determinism.sh [runs per property, default 200]
 set -u
-cd /verif
+root="$(cd "$(dirname "$0")" && pwd)"
+cd "$root"
 N="${1:-200}"
-bin=/verif/target/release/mdnssim
+bin=$root/target/release/mdnssim
 tmp=$(mktemp -d /tmp/verif-det.XXXXXX)
 fail=0
 for p in C13 C14 C15 C16 C20; do
